@@ -276,7 +276,7 @@ func runCheck(cmd, prop, tier string, seed int, only, dump string, verbose bool)
 			jobs = append(jobs, &job{g: g, o: o, idx: len(jobs)})
 		}
 	}
-	timeout := 10
+	timeout := 20
 	if tier == "thorough" {
 		timeout = 60
 	}
